@@ -10,7 +10,7 @@ PROPERTY = 'C10'
 RULE = ('cases = one call of compute_combined_features on a string frame: exhaustive 2- and 3-column frames over the alphabet {"", "1", "11"} '
         'with <= 4 rows (quick; alphabet of 4 and <= 5 rows for 2 columns in thorough); random frames (3-7 base columns, 2..400 rows) over '
         'adversarial alphabets (prefix/suffix chains of digits, values containing ":", "|", space, digits followed by ":", empty strings, '
-        'unicode with combining marks, long strings) x interaction order 2-4 x caps 1..C(n,k)+1 x {AND, AND_REL}; and the score of every '
+        'unicode with combining marks, long strings), default and non-default (shuffled / filtered / string) row indices, x interaction order 2-4 x caps 1..C(n,k)+1 x {AND, AND_REL}; the interaction columns of the frame that compute_batch_ranking finally scores (missing-value symbols among the constituents); and the score of every '
         'interaction column against the label compared with the score of the explicit value tuple. distinct = (alphabet class, order, '
         'frame hash); non-trivial = the frame contains two different value tuples whose plain concatenations coincide.')
 REQUIRED = {'equal-iff-constituents-equal': 200, 'originals-untouched': 200, 'column-count-and-names': 200, 'score=tuple-score': 10}
@@ -44,6 +44,8 @@ def plan(tier, seed):
     for i in range(r):
         shards.append({'name': 'random-%d' % i, 'fn': 'shard_random', 'args': {'part': i, 'parts': r}})
     shards.append({'name': 'scores', 'fn': 'shard_scores', 'args': {}})
+    for i in range(2 if tier == 'quick' else 6):
+        shards.append({'name': 'pipeline-%d' % i, 'fn': 'shard_pipeline', 'args': {'part': i}})
     return shards
 
 
@@ -58,9 +60,11 @@ def concat_collision(data, combo):
     return False
 
 
-def verify(sh, cr, data, cols, label, order, cap, is3mr, cls, sample=False):
+def verify(sh, cr, data, cols, label, order, cap, is3mr, cls, sample=False, index=None):
     import pandas as pd
     df = pd.DataFrame(data, columns=cols)
+    if index is not None:
+        df.index = index          # a sorted / filtered / relabelled frame: rows keep their own labels
     snapshot = df.copy(deep=True)
     args = pipe.make_args(interaction_order=order, combination_number_upper_bound=cap, label_column=label, heuristic='MI-numba-3mr' if is3mr else 'MI-numba-randomized')
     ok, out = sh.call('column-count-and-names', 'compute_combined_features', cr.compute_combined_features, df, args, pipe.NullPbar(), is3mr)
@@ -72,7 +76,7 @@ def verify(sh, cr, data, cols, label, order, cap, is3mr, cls, sample=False):
     space = list(itertools.combinations(base, k)) if order > 1 else []
     wit = lambda **kw: dict(kw, cls=cls, columns=cols, order=order, cap=cap, is3mr=is3mr, rows=[list(r) for r in zip(*[data[c] for c in cols])][:40])  # noqa: E731
     # originals untouched, caller's frame not mutated, new columns appended after them
-    same_prefix = list(out.columns[:len(cols)]) == cols and all(out[c].tolist() == data[c] for c in cols) and len(out) == len(df)
+    same_prefix = list(out.columns[:len(cols)]) == cols and all(out[c].tolist() == data[c] for c in cols) and len(out) == len(df) and list(out.index) == list(df.index)
     sh.check('originals-untouched', same_prefix, 'original-columns-changed', lambda: wit(out_columns=list(out.columns)))
     sh.check('originals-untouched', df.equals(snapshot) and list(df.columns) == cols, 'caller-frame-mutated', lambda: wit(after=df.head(5).values.tolist()))
     new = list(out.columns[len(cols):])
@@ -164,7 +168,12 @@ def shard_random(sh, part, parts):
         order = rng.choice([2, 2, 3, 4]) if nbase >= 4 else 2
         space = math.comb(nbase, 2 if is3mr else order)
         cap = rng.choice([1, 2, max(1, space - 1), space, space + 1, 10 ** 6])
-        verify(sh, cr, data, cols, label, order, cap, is3mr, cls, sample=(t % 20 == 0))
+        index = None
+        if t % 4 == 3 and n >= 2:
+            kind = rng.choice(['shuffled', 'filtered', 'strings', 'offset'])
+            index = {'shuffled': rng.sample(range(n), n), 'filtered': sorted(rng.sample(range(3 * n), n)), 'strings': ['r%d' % i for i in range(n)], 'offset': list(range(100, 100 + n))}[kind]
+            cls = cls + '/index-' + kind
+        verify(sh, cr, data, cols, label, order, cap, is3mr, cls, sample=(t % 20 == 0), index=index)
 
 
 def shard_scores(sh):
@@ -202,3 +211,52 @@ def shard_scores(sh):
         bad = [(k, res[0][k], res[1].get(k)) for k in res[0] if k not in res[1] or not oracles.close32(res[0][k], res[1][k], 2.0)]
         sh.check('score=tuple-score', not bad, 'interaction-score!=score-of-explicit-tuple', lambda: {'heuristic': args.heuristic, 'differences': bad[:5], 'cls': cls, 'rows': df.head(8).values.tolist()})
         sh.case(('scores', cls, t), any(concat_collision(data, nm.split(' AND ')) for nm in inter), 'scores/' + cls)
+
+
+def shard_pipeline(sh, part):
+    """The interaction columns that are actually scored: the frame compute_batch_ranking hands to mixed_rank_graph
+    (after every construction / post-processing step) must still satisfy the partition property against its own constituent columns."""
+    cr = pipe.fresh_core_ranking()
+    captured = []
+    real = cr.mixed_rank_graph
+
+    def hooked(input_dataframe, args, cpu_pool, pbar):
+        captured.append(input_dataframe.copy())
+        return real(input_dataframe, args, cpu_pool, pbar)
+    cr.mixed_rank_graph = hooked
+    rng = sh.rng('pipe', part)
+    for t in range(25 if sh.tier == 'quick' else 80):
+        cls = rng.choice(['missing-symbols', 'missing-symbols'] + sorted(ADVERSARIAL))
+        alpha = ['', '{}', 'a', 'b', 'c', 'NA', ' '] if cls == 'missing-symbols' else ADVERSARIAL[cls]
+        nbase = rng.randint(2, 4)
+        n = rng.choice([6, 30, 120])
+        cols = ['c%d' % i for i in range(nbase)] + ['label']
+        data = {c: [rng.choice(alpha) for _ in range(n)] for c in cols[:-1]}
+        data['label'] = [rng.choice(['0', '1']) for _ in range(n)]
+        order = rng.choice([2, 2, 3]) if nbase >= 3 else 2
+        heuristic = rng.choice(['MI-numba-randomized', 'MI-numba-3mr', 'max-value-coverage'])
+        args = pipe.make_args(heuristic=heuristic, interaction_order=order, target_ranking_only='True', combination_number_upper_bound=10 ** 4,
+                              missing_value_symbols=rng.choice([',{}', ',{},NA']))
+        rows = [list(r) for r in zip(*[data[c] for c in cols])]
+        del captured[:]
+        ok, _ = sh.call('equal-iff-constituents-equal', 'compute_batch_ranking', cr.compute_batch_ranking, rows, set(), args, pipe.SyncPool(), cols, pipe.ListLogger(), pipe.NullPbar())
+        if not ok or not captured:
+            continue
+        frame = captured[-1]
+        collision_seen = False
+        for nm in frame.columns:
+            for join in (' AND ', ' AND_REL '):
+                if join in nm and all(p_ in data for p_ in nm.split(join)):
+                    combo = nm.split(join)
+                    vals = frame[nm].tolist()
+                    tuples = list(zip(*[frame[c].tolist() for c in combo]))
+                    t2v, v2t, bad = {}, {}, None
+                    for tp, v in zip(tuples, vals):
+                        if t2v.setdefault(tp, v) != v:
+                            bad = ('same tuple, different values', tp, t2v[tp], v)
+                        if v2t.setdefault(v, tp) != tp:
+                            bad = ('different tuples, same value', v2t[v], tp, v)
+                    sh.check('equal-iff-constituents-equal', bad is None and tuples == list(zip(*[data[c] for c in combo])), 'scored-interaction-column-not-faithful',
+                             lambda: {'column': nm, 'problem': bad, 'heuristic': heuristic, 'rows': rows[:20], 'values': vals[:20]})
+                    collision_seen = collision_seen or concat_collision(data, combo)
+        sh.case(('pipeline', cls, order, core.h64(rows)), True, 'pipeline/' + cls, sample={'columns': list(frame.columns)[:8], 'rows': rows[:4]} if t % 10 == 0 else None)
